@@ -730,6 +730,71 @@ pub fn run_op(r: &Req, b: &Built) -> Result<String, String> {
             // EOF; the model proves it never happens, the harness observes it.
             Ok(format!("{} emptyreads={}", out, rdr.empty_buf_calls))
         }
+        "streamself" => {
+            let data = r.bytes("hay")?;
+            let sched = r.nums("sched")?;
+            let repl = if r.kv.contains_key("repl") { r.list("repl")? } else { vec![] };
+            aho_corasick::verif::set_stream_spare(None);
+            let mk = |data: &Vec<u8>| SchedReader {
+                data: data.clone(),
+                pos: 0,
+                sched: sched.clone(),
+                calls: 0,
+                fail_at: None,
+                empty_buf_calls: 0,
+            };
+            Ok(with_srch(b, &mut |s| {
+                let mut rdr = mk(&data);
+                let st = match s.stream_find(&mut rdr) {
+                    Err(e) => return err_name(&e),
+                    Ok(v) => v
+                        .iter()
+                        .map(|x| match x {
+                            Ok(m) => fmt_match(m),
+                            Err(()) => "io-err".to_string(),
+                        })
+                        .collect::<Vec<_>>(),
+                };
+                let mem = match s.iter(Input::new(&data)) {
+                    Err(e) => return err_name(&e),
+                    Ok(v) => v.iter().map(fmt_match).collect::<Vec<_>>(),
+                };
+                if st != mem {
+                    let k = st.iter().zip(mem.iter()).take_while(|(a, b)| a == b).count();
+                    return format!(
+                        "diff find stream_n={} mem_n={} first_diff_index={} stream={} mem={}",
+                        st.len(),
+                        mem.len(),
+                        k,
+                        st.get(k).cloned().unwrap_or("-".into()),
+                        mem.get(k).cloned().unwrap_or("-".into())
+                    );
+                }
+                if !repl.is_empty() {
+                    let mut rdr = mk(&data);
+                    let mut wtr = LimitWriter { out: vec![], limit: None };
+                    let res = s.stream_replace(&mut rdr, &mut wtr, &repl);
+                    if let Some(e) = io_class(&res) {
+                        return e;
+                    }
+                    let memr = match s.replace_bytes(&data, &repl) {
+                        Ok(v) => v,
+                        Err(e) => return err_name(&e),
+                    };
+                    if !res.is_ok() || wtr.out != memr {
+                        let k = wtr.out.iter().zip(memr.iter()).take_while(|(a, b)| a == b).count();
+                        return format!(
+                            "diff replace ok={} stream_len={} mem_len={} first_diff_offset={}",
+                            res.is_ok() as u8,
+                            wtr.out.len(),
+                            memr.len(),
+                            k
+                        );
+                    }
+                }
+                "same".to_string()
+            }))
+        }
         "meta" => Ok(with_srch(b, &mut |s| s.meta())),
         "threads" => crate::exec::threads(r, b),
         "selfcheck" => {
@@ -1082,6 +1147,53 @@ pub fn run(r: &Req) -> Vec<(String, String)> {
         let s = "avx2=0 ssse3=0".to_string();
         return vec![("-".into(), s)];
     }
+    if r.op == "bufcap" {
+        // Tie C by observation: the (min, capacity) of the roll buffer the real code creates
+        aho_corasick::verif::set_stream_spare(None);
+        let res = match r.nums("mins") {
+            Err(e) => format!("bad-request:{}", e),
+            Ok(mins) => format!(
+                "caps={}",
+                mins.iter()
+                    .map(|&m| {
+                        let (mn, cap) = aho_corasick::verif::stream_buffer_capacity(m);
+                        format!("{}/{}", mn, cap)
+                    })
+                    .collect::<Vec<_>>()
+                    .join(",")
+            ),
+        };
+        return vec![("-".into(), res)];
+    }
+    // `streamself`: stream search / replacement against the in-memory search of the same real
+    // searcher, with an optional synthetic long pattern (`big=N`: N bytes 'q'; the token `B` in
+    // `parts` stands for it) that is too long for the line protocol and the model
+    let expanded;
+    let r = if r.op == "streamself" {
+        let mut r2 = r.clone();
+        let big = vec![b'q'; r.n_or("big", 0)];
+        let mut pats = r.s_or("pats", ".").to_string();
+        if !big.is_empty() {
+            pats = if pats == "." { hex(&big) } else { format!("{},{}", pats, hex(&big)) };
+        }
+        let mut hay = vec![];
+        for part in r.s_or("parts", "_").split(',') {
+            if part == "B" {
+                hay.extend_from_slice(&big);
+            } else {
+                match crate::req::unhex(part) {
+                    Ok(b) => hay.extend_from_slice(&b),
+                    Err(e) => return vec![("-".into(), format!("bad-request:{}", e))],
+                }
+            }
+        }
+        r2.kv.insert("pats".into(), pats);
+        r2.kv.insert("hay".into(), hex(&hay));
+        expanded = r2;
+        &expanded
+    } else {
+        r
+    };
     let mut out = vec![];
     for c in cfgs {
         let res = catch_unwind(AssertUnwindSafe(|| -> String {
